@@ -14,6 +14,7 @@ Case format (JSON):
   negs: 'O' | 'U' | 'A' | ['X', ack(0/1), [bytes]]
   evs : ['S', hdr, [data]] | ['Q', hdr, [data]] | ['R'] | ['T', 'O'|'U'|'A', [fill]]
       | ['W', None | [status, payload...]]         (raw dongle answer, host-only cases: peer bypassed)
+      | ['I', dt]  idle phase: the statistics clock (virtual) advances by dt seconds; not part of the model's script
       | ['N']  radio.send_packet returns None (usb.USBError swallowed by Crazyradio)   | ['E']  it raises
       | ['ST', hdr, [data]]  send_packet that runs into its 2 s timeout if the queue is full (virtual clock)
       | ['RW', wait]         receive_packet(wait)
@@ -34,7 +35,11 @@ class Peer:
     accepts an uplink frame iff its bit 3 differs from the last accepted one, prepares a new ack payload
     iff bit 2 differs from the one the current payload was prepared for, otherwise repeats the last."""
 
-    def __init__(self, on=False, up=True, down=True, txq=(), last=None):
+    def __init__(self, on=False, up=True, down=True, txq=(), last=None, empty_idle=False):
+        # empty_idle: a peer that answers with a ZERO-LENGTH ack payload when it has nothing queued (the driver has
+        # explicit branches for len(data) == 0).  For the alternating bit to work such a peer must not count the empty
+        # answer as a served payload: it keeps its downlink bit and asks its queue again on the next frame.
+        self.empty_idle = bool(empty_idle)
         self.on, self.up, self.down = bool(on), bool(up), bool(down)
         self.rx = []
         self.txq = [list(q) for q in txq]
@@ -56,6 +61,8 @@ class Peer:
             self.up = b3
             self.rx.append([frame[0] & 0xf3] + frame[1:])
         if b2 != self.down:
+            if self.empty_idle and not self.txq:
+                return []
             self.down = b2
             return self._next(True, fill)
         return self._next(False, fill)
@@ -64,12 +71,38 @@ class Peer:
         if advance or self.last is None:
             if self.txq:
                 self.last = self.txq.pop(0)
+            elif self.empty_idle:
+                return []
             else:
                 self.last = [0xf3] + list(fill)
         out = list(self.last)
         if self.on and out:
             out[0] = (out[0] & 0xf3) | (int(self.down) << 2) | (int(self.up) << 3)
         return out
+
+
+class StatsClock:
+    """`time` as seen by cflib.crtp.radio_link_statistics: virtual.  Every reading advances it by `tick`
+    (default 0.1 ms; 0.25 s in 'stats' mode so that every reporting branch runs), script events ['I', dt] add an
+    idle phase of dt seconds.  Installed for the whole life of a Sim — also while the thread object (and with it the
+    RadioLinkStatistics object, which may read the clock in __init__) is constructed."""
+
+    def __init__(self, tick):
+        self.t, self.tick = 5000.0, tick
+
+    def time(self):
+        self.t += self.tick
+        return self.t
+
+    def install(self):
+        import cflib.crtp.radio_link_statistics as rls
+        self._rls, self._saved = rls, rls.time
+        rls.time = self
+        return self
+
+    def remove(self):
+        if self._rls.time is self:
+            self._rls.time = self._saved
 
 
 class FakeDev:
@@ -144,7 +177,8 @@ class Sim:
         self.rd, self.CRTPPacket = rd, CRTPPacket
         self.case = case
         p0 = case.get('p0') or {}
-        self.peer = Peer(p0.get('on', 0), p0.get('up', 1), p0.get('down', 1), p0.get('txq', ()), p0.get('last'))
+        self.peer = Peer(p0.get('on', 0), p0.get('up', 1), p0.get('down', 1), p0.get('txq', ()), p0.get('last'),
+                         p0.get('empty_idle', 0))
         self.queued = [list(q) for q in self.peer.txq]
         self.accepted, self.got = [], []
         self.negs = list(case.get('negs', []))
@@ -169,6 +203,14 @@ class Sim:
         # --- the real objects
         self._saved_N = rd._nr_of_retries
         rd._nr_of_retries = case['N']
+        self.clock = None
+        if getattr(self, 'pair', None) is None:      # (two links on one dongle: the Pair owns the clock)
+            self.clock = StatsClock(0.25 if case.get('stats') else 0.0001).install()
+        self._saved_qtime = None
+        if p0.get('empty_idle') and not case.get('threaded'):
+            # >10 empty answers in a row make the loop wait 10 ms per iteration on an empty out_queue: virtual queue clock
+            self._saved_qtime = queue.time
+            queue.time = Sim._Jump()
         try:
             self._make_radio(crz)
             self.drv = rd.RadioDriver()
@@ -181,7 +223,15 @@ class Sim:
             self.thread = self.drv._thread
         except Exception:
             rd._nr_of_retries = self._saved_N
+            self._restore_clocks()
             raise
+
+    def _restore_clocks(self):
+        if self.clock is not None:
+            self.clock.remove()
+        if self._saved_qtime is not None:
+            queue.time = self._saved_qtime
+            self._saved_qtime = None
 
     URI = 'radio://0/80/2M'
 
@@ -346,6 +396,11 @@ class Sim:
                     self.evs[0:1] = [['R'] for _ in range(self.drv.in_queue.qsize() + 1)]
                 continue
             e = self.evs.pop(0)
+            if e[0] == 'I':                          # idle phase: only the statistics clock moves
+                clk = self.clock if self.clock is not None else self.pair.clock
+                clk.t += e[1]
+                self.side.append(e)
+                continue
             if e[0] in ('SC', 'SS', 'BS'):           # somebody else uses the shared dongle (c01_shared.py)
                 self.side.append(e)
                 self._side_event(e)
@@ -427,6 +482,8 @@ class Sim:
 
     def on_read(self):
         r = self.pending_reply
+        if self.open_tx and self.tx and 'usb' not in self.tx[-1]:
+            self.tx[-1]['usb'] = None if r is None else list(r)
         self.pending_reply = None
         if r is None:
             raise self.usb_error('no reply')
@@ -446,22 +503,10 @@ class Sim:
             self.tx[-1]['data'] = None if r is None else list(r.data)
 
     def run(self):
-        rd = self.rd
-        import cflib.crtp.radio_link_statistics as rls
-        saved_time = rls.time
-        if self.case.get('stats'):
-            class _T:
-                t = 5000.0
-
-                @classmethod
-                def time(cls):
-                    cls.t += 0.25
-                    return cls.t
-            rls.time = _T
         try:
             self._run()
         finally:
-            rls.time = saved_time
+            self._restore_clocks()
             self._cleanup()
         return self._finish()
 
@@ -578,6 +623,7 @@ class Sim:
                 self.thread._sp = True
         finally:
             rd._nr_of_retries = self._saved_N
+            self._restore_clocks()
         if self.open_tx:
             self.open_tx = False
         return self._finish()
@@ -637,3 +683,34 @@ def link_quality_run(retries):
         a.retry = r
         st._update_link_quality(a)
     return int(st._retry_sum), len(st._retries), st.radio_link_statistics.get('link_quality')
+
+
+def stats_counters_run(calls):
+    """RadioLinkStatistics._update_rate_and_congestion on a sequence of (has_out, ack payload, dt): the clock (virtual)
+    advances by dt before each call.  Returns (per call: did the code see the period as elapsed, per the shadow of its
+    `_previous_time_stamp`), final counters [up, null_up, down, null_down] or [-1] if a call raised."""
+    from cflib.crtp.radio_link_statistics import RadioLinkStatistics
+    clock = StatsClock(0.0).install()
+    try:
+        class A:
+            pass
+        st = RadioLinkStatistics(None)
+        prev = None
+        flags = []
+        for has_out, data, dt in calls:
+            clock.t += dt
+            if prev is None:
+                prev = clock.t if not hasattr(st, '_previous_time_stamp') else st._previous_time_stamp
+            el = clock.t - prev > 0.1
+            flags.append(el)
+            a = A()
+            a.ack, a.data, a.retry = True, tuple(data), 0
+            st.radio_link_statistics = {}
+            try:
+                st._update_rate_and_congestion(a, object() if has_out else None)
+            except ZeroDivisionError:
+                return flags, [-1]
+            prev = st._previous_time_stamp
+        return flags, [st._amount_packets_up, st._amount_null_packets_up, st._amount_packets_down, st._amount_null_packets_down]
+    finally:
+        clock.remove()
